@@ -196,17 +196,23 @@ static const scen_t scens[] = {
     { "sort_popf", { 1, 3, 2, 4, 0, 5 }, 3, { 0, 1, 2 }, 2, { { { O_SORT, -1, -1 }, E }, { { O_POPF, -1, -1 }, E } } },
     { "sort_popb_pushb", { 1, 3, 2, 4, 0, 5 }, 3, { 0, 1, 2 }, 3, { { { O_SORT, -1, -1 }, E }, { { O_POPB, -1, -1 }, E }, { { O_PUSHB, 3, -1 }, E } } },
     { "sort_trypopf_fifopop", { 1, 3, 2, 4, 0, 5 }, 2, { 0, 1 }, 3, { { { O_SORT, -1, -1 }, E }, { { O_TRYPOPF, -1, -1 }, E }, { { O_FIFO_POP, -1, -1 }, E } } },
+    /* sorted insertions racing on an EMPTY list (and on a list that becomes empty): the position must be decided under the lock
+     * (seeded change C31-1: unlocked "list is empty" fast path in parsec_list_push_sorted) */
+    { "pushsorted_x3_empty", { 1, 5, 3, 1, 1, 1 }, 0, { 0 }, 3, { { { O_PUSHSORTED, 0, -1 }, E }, { { O_PUSHSORTED, 1, -1 }, E }, { { O_PUSHSORTED, 2, -1 }, E } } },
+    { "pushsorted_popf_pushsorted_single", { 4, 1, 5, 1, 1, 1 }, 1, { 0 }, 3, { { { O_POPF, -1, -1 }, E }, { { O_PUSHSORTED, 1, -1 }, E }, { { O_PUSHSORTED, 2, -1 }, E } } },
 };
 #define NSCEN ((int)(sizeof(scens) / sizeof(scens[0])))
 #define R(i) static void r##i(void) { run_scen(&scens[i]); }
 R(0) R(1) R(2) R(3) R(4) R(5) R(6) R(7) R(8) R(9) R(10)
-R(11) R(12) R(13)
+R(11) R(12) R(13) R(14) R(15)
 static cs_scenario_t scenarios[] = {
     { "pushf_pushb_popf", r0, 0 }, { "popf_popb_pushb_single", r1, 0 }, { "pushsorted_ties_popf", r2, 0 }, { "chainsorted_popb_pushsorted", r3, 0 },
     { "chainf_chainb_unchain", r4, 0 }, { "trypopf_trypopb_pushb", r5, 0 }, { "fifo_push2_pop2", r6, 0 }, { "fifo_chain_trypop_pop", r7, 0 },
     { "dequeue_2x2", r8, 0 }, { "isempty_pushf_popf", r9, 0 }, { "sort_pushb_pushf", r10, 0 },
     { "sort_popf", r11, 0 }, { "sort_popb_pushb", r12, 0 }, { "sort_trypopf_fifopop", r13, 0 },
+    { "pushsorted_x3_empty", r14, 0 }, { "pushsorted_popf_pushsorted_single", r15, 0 },
 };
+_Static_assert(sizeof(scenarios) / sizeof(scenarios[0]) == NSCEN, "one cosched scenario per script");
 #define NMAIN 11
 int main(int argc, char **argv)
 {
@@ -220,7 +226,7 @@ int main(int argc, char **argv)
     static const char *slow[] = { "chainsorted_popb_pushsorted", "fifo_chain_trypop_pop", "sort_pushb_pushf", "sort_popb_pushb", "isempty_pushf_popf", "sort_trypopf_fifopop" };
     static cs_scenario_t sel[32]; int nsel = 0;
     for (int k = 0; k < nall; k++) {
-        int is_sort = k >= NMAIN, skip = 0;
+        int is_sort = (k >= NMAIN && k < NMAIN + 3), skip = 0;     /* scripts 11..13 are the sort||pop leg; later additions belong to the main leg */
         if (leg && !strcmp(leg, "main") && is_sort) continue;
         if (leg && !strcmp(leg, "sort") && !is_sort) continue;
         if (getenv("C31_QUICK")) for (unsigned j = 0; j < sizeof(slow) / sizeof(slow[0]); j++) if (!strcmp(scenarios[k].name, slow[j])) skip = 1;
